@@ -1,14 +1,7 @@
 //! tverif: property-based verification harness for temporal_rs.
 //! usage: tverif <ID|selftest> [quick|thorough] [--replay <file>] [--no-evidence]
 
-pub mod conv;
-pub mod gen;
-pub mod props;
-pub mod refm;
-#[macro_use]
-pub mod run;
-pub mod tzp;
-
+use tverif::{props, run};
 use run::{Ctx, Tier};
 
 fn main() {
